@@ -263,12 +263,9 @@ func genPingFrame(r *Rng, base int) func(i int) []byte {
 
 func genDrainFrame(r *Rng) func(i int) []byte {
 	return func(i int) []byte {
-		m := genHeaders(r, true)
+		m := smallHeaders(r)
 		m["_opid"] = strconv.Itoa(1 + r.Intn(1<<20))
-		p := genPayload(r)
-		if len(p) > 64 {
-			p = p[:64]
-		}
+		p := smallPayload(r)
 		return append(marshalSorted(m), p...)
 	}
 }
